@@ -1274,6 +1274,8 @@ class Engine:
             elif kind == "infeasible":
                 self.stats["infeasible"] += 1
             else:
+                if kind == "fail":
+                    self.reached |= st.reached      # witnesses reached before the failing assertion still count
                 self.results.append(dict(kind=kind, msg=msg, aid=aid, draws=self.draw_values(st),
                                          outs=[o if isinstance(o, int) else str(o) for o in st.outs]))
         self.stats["wall"] = time.time() - t0
